@@ -807,20 +807,36 @@ def t_dummy_zp(facts, res, tier):
         res.fail("T-DUMMY-ZP:insert", facts.where(fn, found), "DUMMY is visible to user code (inserted before parsing)")
 
 
-PROTECT_EXCEPTIONS = {
-    ("generate_csleep_statement", "STA", "DUMMY"): "DUMMY is inserted after parsing and cannot be named by user code; the only rules deleting a store need a preceding load of the same operand",
-    ("generate_csleep_statement", "DEC", "DUMMY"): "no peephole rule removes DEC (T-OPT-PROT requires a protected test for any that would)",
-}
+# (two exceptions for the STA DUMMY / DEC DUMMY of csleep stood here until round 10; their premise - user code cannot name DUMMY - only
+# holds in the atari2600 build: in the default build `char DUMMY; load(DUMMY); csleep(3);` lost the store.  Repaired in the repository, 453fda7.)
+PROTECT_EXCEPTIONS = {}
+
+
+from rules_asm import protecting_wrappers as _protecting_wrappers  # noqa: E402
 
 
 @rule("T-PROTECT-REGION", floor=8,
       text="every instruction emitted for load(), store(), strobe() and csleep() is emitted with the protected flag set (so that no peephole rule may delete it), and the flag is clear again on every normal exit of the statement generator")
 def t_protect_region(facts, res, tier):
+    wrappers = {k: v for k, v in _protecting_wrappers(facts).items() if k != "sasm_protected"}
+    for w in sorted(wrappers):
+        res.inst("T-PROTECT-REGION:wrapper:%s" % w, True, {"body": wrappers[w]})
     for fname in EXPLICIT_STMT_GENERATORS:
         fn = facts.fn(fname, GEN_QUAL)
         seen = set()
         for kind, value, st in fn_paths(facts, fn):
             for e in st.events:
+                if e["kind"] == "call" and e.get("callee") in wrappers and e.get("args"):
+                    mns = domain_of(st, e["args"][0], facts) or {"?"}
+                    opname = ""
+                    if len(e["args"]) > 1 and isinstance(e["args"][1], EnumV) and e["args"][1].payload and isinstance(e["args"][1].payload[0], Const):
+                        opname = e["args"][1].payload[0].v
+                    for mn in sorted(mns):
+                        key = "T-PROTECT-REGION:%s:%s%s" % (fname, mn, (":" + opname) if opname else "")
+                        if key not in seen:
+                            seen.add(key)
+                            res.inst(key, True, {"function": fname, "mnemonic": mn, "protected": "through %s" % e["callee"]})
+                    continue
                 if e["kind"] not in ("asm", "sasm", "sasm_protected"):
                     continue
                 mnv = e["args"][0]
